@@ -102,9 +102,20 @@ class BringUpDevice(Device):
             raise SW(0x6D00)
         # ---- bootloader ----
         if cmd == (0xA4 if sgx else 0x02):
-            if self.cfg.get("echo", ["ok", "bad"]) == "ok":
+            e = self.cfg.get("echo", ["ok", "bad", "cla", "ins", "short", "long", "header-only"])
+            if e == "ok":
                 return bytes(apdu)
-            return bytes(apdu[:-1]) + bytes([apdu[-1] ^ 0x01])
+            if e == "bad":
+                return bytes(apdu[:-1]) + bytes([apdu[-1] ^ 0x01])
+            if e == "cla":            # payload intact behind another class byte
+                return bytes([apdu[0] ^ 0x60]) + bytes(apdu[1:])
+            if e == "ins":            # payload intact behind another instruction byte
+                return bytes([apdu[0], apdu[1] ^ 0x02]) + bytes(apdu[2:])
+            if e == "short":
+                return bytes(apdu[:-1])
+            if e == "long":
+                return bytes(apdu) + b"\x00"
+            return bytes(apdu[:2])
         if cmd == (0xA2 if sgx else 0x45):
             return bytes([0x80, cmd, self.cfg.get("retries", self.o["retries"])])
         if not sgx and cmd == 0x41:
